@@ -38,6 +38,65 @@ def gen_program(rng, tier, bad=0.0, exact=True):
     return prog
 
 
+def step_reference(B, A, op):
+    """One accepted primitive call on a circuit that may contain ancillas: the real-mode block of
+    U_full afterwards = (component on the user modes mapped past the ancillas, loss as the
+    factor sqrt(1-loss)) x the block before; one extra mode per loss element."""
+    if "ok" not in B[5] or "ok" not in A[5]:
+        return None if B[5] == A[5] else f"compile outcome changed {B[5] if 'err' in B[5] else 'ok'} -> {A[5] if 'err' in A[5] else 'ok'}"
+    n = B[0]
+    if A[0] != n or A[2] != B[2] or A[3] != B[3] or A[4] != B[4]:
+        return "a primitive call changed n_modes / heralds / ancillas"
+    anc = set(B[4])
+    vis = [m for m in range(n) if m not in anc]
+    dB, UB = B[5]["ok"][0], np.array([[complex(x[0], x[1]) for x in row] for row in B[5]["ok"][1]])
+    dA, UA = A[5]["ok"][0], np.array([[complex(x[0], x[1]) for x in row] for row in A[5]["ok"][1]])
+    E = np.eye(n, dtype=complex)
+    nloss = 0
+    k = op[0]
+    if k == "bs":
+        _, _, m1, m2, R, L, conv = op
+        m2 = m1 + 1 if m2 is None else m2
+        a, b = vis[m1], vis[m2]
+        r = cg._bs_value(R)
+        c_, s_ = math.sqrt(r), math.sqrt(1 - r)
+        if conv == "Rx":
+            E[a, a], E[a, b], E[b, a], E[b, b] = c_, 1j * s_, 1j * s_, c_
+        else:
+            E[a, a], E[a, b], E[b, a], E[b, b] = c_, s_, s_, -c_
+        l = cg._loss_value(L)
+        if l > 0:
+            D = np.eye(n, dtype=complex)
+            D[a, a] = D[b, b] = math.sqrt(1 - l)
+            E = D @ E
+            nloss = 2
+    elif k == "ps":
+        _, _, m, P, L = op
+        a = vis[m]
+        E[a, a] = complex(cg.ffloat(cg.PHV[P][0]), cg.ffloat(cg.PHV[P][1]))
+        l = cg._loss_value(L)
+        if l > 0:
+            E[a, a] *= math.sqrt(1 - l)
+            nloss = 1
+    elif k == "loss":
+        a = vis[op[2]]
+        E[a, a] = math.sqrt(1 - cg._loss_value(op[3]))
+        nloss = 1
+    elif k == "swaps":
+        P_ = np.zeros((n, n), dtype=complex)
+        sw = {vis[x]: vis[y] for x, y in op[2]}
+        for i in range(n):
+            P_[sw.get(i, i), i] = 1
+        E = P_
+    if dA != dB + nloss:
+        return f"U_full dimension {dA}, expected {dB}+{nloss}"
+    if not np.allclose(UA[:n, :n], E @ UB[:n, :n], atol=1e-9):
+        return f"the component was not embedded on the user modes it was given (mapped past ancillas {sorted(anc)})"
+    if not np.allclose(UA @ UA.conj().T, np.eye(dA), atol=1e-9):
+        return "U_full is not unitary"
+    return None
+
+
 class C01:
     ID = "C01"
     RULE = ("random construction programs on one circuit (1-8 modes, up to 40 calls): bs both conventions / reversed / default mode_2, "
@@ -60,9 +119,25 @@ class C01:
                 cases.append(dict(kind="prog", model=True, prog=gen_program(rng, tier, bad=0.25)))
             else:
                 cases.append(dict(kind="prog", model=False, prog=gen_program(rng, tier, exact=False)))
+        # components added to circuits that already contain heralded sub-circuits (user modes skip ancillas)
+        for i in range(n // 4):
+            cases.append(dict(kind="tree", model=True, prog=cg.gen_tree_program(rng, tier, loss_p=0.6, max_leaves=2)))
         return cases
 
     def impl(self, c):
+        if c["kind"] == "tree":
+            self._fail = None
+
+            def on_step(pool, op, out, before):
+                if self._fail or "err" in out or op[0] not in ("bs", "ps", "loss", "swaps", "barrier"):
+                    return
+                msg = step_reference(before[op[1]], cg.snapshot(pool[op[1]]), op)
+                if msg:
+                    self._fail = f"op {op}: {msg}"
+
+            obs, _ = cg.run_impl(c["prog"], on_step=on_step, want=lambda op: (op[1],))
+            obs.append({"step": self._fail})
+            return obs
         obs, _ = cg.run_impl(c["prog"])
         return obs
 
@@ -82,10 +157,12 @@ class C01:
     def compare(self, c, a, b):
         if not c["model"]:
             return None
-        return core.approx_equal(a, b)
+        return core.approx_equal(a[:2], b)
 
     # the property stated directly on the implementation
     def oracle(self, c, obs):
+        if c["kind"] == "tree":
+            return obs[2]["step"]
         prog = c["prog"]
         outcomes, world = obs
         n = prog[0][2]
@@ -162,7 +239,7 @@ class C01:
         return None
 
     def nontrivial(self, c, obs):
-        outcomes, _ = obs
+        outcomes = obs[0]
         kinds = Counter(op[0] for op, out in zip(c["prog"], outcomes) if "ok" in out and op[0] not in ("new", "unitary"))
         return sum(kinds.values()) >= 3 and len(kinds) >= 2
 
@@ -177,7 +254,8 @@ class C01:
                 ops[op[0]] += 1
                 if "err" in out:
                     errs[out["err"]] += 1
-            sizes[r["case"]["prog"][0][2]] += 1
+            if r["case"]["kind"] == "prog":
+                sizes[r["case"]["prog"][0][2]] += 1
         return {"ops": dict(ops), "rejected_calls_by_class": dict(errs), "n_modes": dict(sizes),
                 "model_cases": sum(1 for c in cases if c["model"]), "oracle_only_cases": sum(1 for c in cases if not c["model"])}
 
